@@ -84,7 +84,10 @@ def run(ctx, prog):
              'other callers: %s' % sorted(others))
 
     ctx.rule('C14.R2', 'pairing: insert / bulk_insert give the reserved slot back on the Err edge of engine.insert when the id was '
-                       'new; bulk_load_hnsw releases reserved − inserted on Ok and the whole reservation on Err, at both batch sites')
+                       'new; bulk_load_hnsw releases reserved − inserted on Ok and the whole reservation on Err, at both batch sites; between the successful quota check / '
+                       'reservation and the engine call that consumes it no path leaves the handler without handing the slot back (an early refusal there leaks it for '
+                       'good); the set a bulk batch reserves for is filled with exactly the ids engine.exists reports absent before the load (what the census release '
+                       'gives back is exact only for those)')
     for h in ('insert', 'bulk_insert'):
         b = server.handler(ctx, 'C14.R2', h, 'KyroDBServiceImpl::tenant_context')
         ov = flow.Origin(b, stop_at_vars=True)
@@ -204,6 +207,71 @@ def run(ctx, prog):
         ctx.inst('C14.R2', 'rpc bulk_load_hnsw', 'reservation #%d reaches its load or is released: no exit in between' % k, bool(starts_r) and not bad_r,
                  ('between the successful reserve_tenant_vectors at %s and the load a path leaves without releasing: %s' % (
                      c.loc, rt.path_witness(b, rt.find_path(b, starts_r, [bad_r[0]], avoid_blocks=cut_r) or [])[-5:])) if bad_r else 'every path from the reservation passes bulk_load_cold_tier')
+
+    # what is reserved: the census release above gives back  reserved − |{reserved ids that exist after the load}|, which is exact only if the reserved set holds the ids
+    # of the batch the engine did NOT hold before the load (an id that existed before exists afterwards too — reserving for it keeps its slot for good: an overwriting
+    # batch fills the quota) and holds every one of them (an absent id that is not reserved is loaded uncounted).  Decided per batch site on the set whose size is
+    # passed to reserve_tenant_vectors: every insertion into it lies behind the `engine.exists(id)` = false edge for the inserted id, and that edge always inserts
+    def _named_copy(e):
+        for _ in range(4):
+            if e[0] != 'var':
+                break
+            e = ov.of_local(e[1])
+        return e
+    of_b = flow.Origin(b)
+    n_sets = 0
+    for k, c in enumerate(b.calls_to('KyroDBServiceImpl::reserve_tenant_vectors')):
+        e = _named_copy(ov.of_operand(c.args[2])) if len(c.args) > 2 else ('const', '?', None)
+        set_l = e[2][0][1] if e[0] == 'call' and flow.short(e[1]) == 'HashSet::len' and e[2] and e[2][0][0] == 'var' else None
+        descr = 'reservation #%d: the reserved set holds exactly the ids the engine does not hold yet' % k
+        if set_l is None:
+            ctx.inst('C14.R2', 'rpc bulk_load_hnsw', descr, False, 'the reserved amount is not the size of a set of ids: %s' % flow.render(e)[:120])
+            continue
+        n_sets += 1
+        puts = [x for x in b.calls if x.callee and re.search(r'HashSet(<.*>)?::insert$', x.callee) and len(x.args) > 1 and ov.of_operand(x.args[0])[:2] == ('var', set_l)]
+        fills = [x for x in b.calls if x.callee and re.search(r'::(extend|from_iter|collect|append|union|push)$', x.callee) and x.args and
+                 (ov.of_operand(x.args[0])[:2] == ('var', set_l) or (x.dest and not x.dest.get('p') and x.dest['l'] == set_l))]
+        if not puts or fills:
+            ctx.inst('C14.R2', 'rpc bulk_load_hnsw', descr, False, 'the reserved set is not filled by guarded HashSet::insert calls only (insert calls: %d, other fills: %s)' % (
+                len(puts), [flow.short(x.callee) for x in fills]))
+            continue
+        problems = []
+        for x in puts:
+            idr = flow.render(of_b.of_operand(x.args[1]))
+            absent = []
+            for i, blk in enumerate(b.blocks):
+                if blk['t']['k'] == 'switch' and i in b.live_blocks():
+                    absent += [(i, tg) for tg, p in flow.switch_edge_predicates(b, i, of_b) if re.match(r'^!bool\[TieredEngine::exists\(.*, %s\)\]$' % re.escape(idr), p)]
+            heads = [h for h in b.calls if h.callee and h.is_('re:Iterator>::next$') and b.dominates(h.bb, x.bb) and h.bb in b.reach([x.bb])]
+            # the probe of THIS batch site: inside the loop that feeds this set (the other site renders its id the same way)
+            absent = [(i, tg) for i, tg in absent if any(b.dominates(h.bb, i) for h in heads)]
+            if not absent:
+                # the probe may sit in the loop source instead: `for … in batch.iter().filter(|(id, ..)| !engine.exists(*id))`
+                flt = False
+                for h in heads:
+                    a = h.args[0]
+                    l_ = a['pl']['l'] if a.get('pl') else None
+                    for _ in range(4):
+                        nxt = [d[3]['rv']['pl']['l'] for d in b.defs.get(l_, []) if d[2] == 'assign' and d[3]['rv']['k'] == 'ref']
+                        if not nxt:
+                            break
+                        l_ = nxt[0]
+                    m_ = re.search(r'Iterator::filter\(.*?, closure:(.+?\{closure#\d+\})\{', flow.render(of_b.of_local(l_))) if l_ is not None else None
+                    cb_ = next((q for q in prog.family(b) if m_ and (q.id == m_.group(1).strip() or q.id.endswith(m_.group(1).strip()))), None)
+                    if cb_ is not None and re.match(r'^Not\(TieredEngine::exists\(', flow.render(flow.Origin(cb_).of_local(0))):
+                        flt = True
+                if not flt:
+                    problems.append('the id inserted at %s is not tested with engine.exists first: an id that already exists (an overwrite) reserves a slot the census never gives back' % x.loc)
+                continue
+            if x.bb in b.reach([0], avoid_edges=absent):
+                problems.append('the insertion at %s is reachable without the engine reporting the id absent: %s' % (
+                    x.loc, rt.path_witness(b, rt.find_path(b, [0], [x.bb], avoid_edges=absent) or [])[-4:]))
+            r_ = b.reach([tg for _, tg in absent], avoid_blocks=[y.bb for y in puts]) | (set(tg for _, tg in absent) - set(y.bb for y in puts))
+            if not heads or any(h.bb in r_ for h in heads):
+                problems.append('an id the engine reports absent can skip the insertion at %s: it is loaded without a reserved slot' % x.loc)
+        ctx.inst('C14.R2', 'rpc bulk_load_hnsw', descr, not problems, '; '.join(problems) if problems else
+                 '%d insertion(s), each on the engine.exists(id) = false edge of the inserted id, which always inserts' % len(puts))
+    ctx.floor('C14.R2', 'batch sites whose reservation is the size of an id set', n_sets, 2, 'in-stream batch and final batch')
 
     ctx.rule('C14.R3', 'decrement by reported count: delete decrements 1 only on the `existed` edge of the engine result; '
                        'batch_delete decrements by the count the engine returned')
